@@ -46,6 +46,9 @@ func (rt *runtime) newRegExpObject(pattern string, flags string) *object {
 			}
 			ignoreCase = true
 			re2flags += "i"
+		default:
+			// 15.10.4.1: any other character in the flags is a SyntaxError.
+			panic(rt.panicSyntaxError("Invalid flags supplied to RegExp constructor '%s'", flags))
 		}
 	}
 
